@@ -24,4 +24,4 @@ FINDINGS = []
 
 
 def run(ctx):
-    B.run_property(ctx, "C06", INVARIANTS, PROPERTIES, QUICK, THOROUGH, FINDINGS, overlap=['grp2', 'upd2'])
+    B.run_property(ctx, "C06", INVARIANTS, PROPERTIES, QUICK, THOROUGH, FINDINGS, overlap=['grp2', 'upd2', 'sib2i'])
